@@ -163,7 +163,7 @@ func runScript(sc *script, sum *summary) (clean bool) {
 	partial := 0
 	vsys.K.OnTake = func(fd int, p []byte, kind string) {
 		for _, r := range dec.Decode(p) {
-			tr.Emit(hlib.Ev{"ev": "take", "sid": r.Sid, "lo": r.Lo, "hi": r.Hi})
+			tr.Emit(hlib.Ev{"ev": "take", "sid": r.Sid, "lo": r.Lo, "hi": r.Hi, "peer": false})
 		}
 	}
 	vsys.K.OnSys = func(name string, fd, n int, e syscall.Errno) {
